@@ -43,6 +43,58 @@ CHECKS = {
             "backtracking steps polynomially (linear per rule, quadratic for tokenise). Wall-clock is measured by a timing ladder on strings pumped from every regex loop.",
             BASE_NOTE + "The step counter is a cost model of a priority-order backtracking matcher (what CPython's sre is); sre's constants and optimisations are not modelled; time is measured, not proved.",
             "DESIGN.md §5 C07"),
+    "C01": ("proof",
+            "Coq proof that converter, strip_empty, collapse and writer preserve reading-order text + end-to-end correspondence + independent live-text oracle",
+            "Theorems over all document trees, style maps without :separator and options: the text of whatever the visitor emits is the reading-order text "
+            "(note markers [k] in place, notes after the body, `!` content omitted), strip_empty and collapse keep text, and the returned HTML lexes back (independent "
+            "lexer) to exactly that text. The XML->document half is tied by in-kernel correspondence of Model/Reader.v with the real reader on generated packages, and "
+            "an independent live-text function computed on the package is compared with the implementation's output.",
+            BASE_NOTE + "The reader half (XML -> document elements) is correspondence-level, not yet a theorem. Domain: a deleted paragraph mark is followed by a paragraph in the same container; fldChar balanced.",
+            "DESIGN.md §5 C01"),
+    "C03": ("proof",
+            "Coq proof of the decision rules (first match, concatenation order, matcher iff-specs) + end-to-end correspondence with marker-class oracle",
+            "Theorems: find_style returns the first matching mapping and distributes over ++; read_options yields explicit ++ embedded ++ defaults for every text; "
+            "a mapping matches iff kind, style id, style name (upper-cased equality/prefix) and list level agree; unmatched defaults; `!` drops element and contents without side effects. "
+            "Correspondence: probe elements with near-miss decoys split across style_map / embedded part / defaults under both flags; winner predicted from the property text.",
+            BASE_NOTE, "DESIGN.md §5 C03"),
+    "C05": ("proof",
+            "Coq proof classifying every failure of the model (all Python exception sites are explicit Crash values) + valid/malformed correspondence streams",
+            "Theorem over ALL packages and options: convert_to_html / extract_raw_text return a result or fail with one of an enumerated list of out-of-domain causes "
+            "(missing required attributes, unresolved ids, unbalanced fldChar, non-numeric values, broken package structure); never LineParseError, never because of a style map, "
+            "a missing mc:Fallback or a dangling numStyleLink. The model is tied to the code on a valid stream (no exception allowed, html/markdown/raw) and a malformed stream "
+            "(model Crash <=> implementation raises).",
+            BASE_NOTE + "Python's recursion limit, memory and expat errors are not modelled; the link from the property's domain description to the crash codes is by the documented table in Proofs/ReaderSpec.v.in; markdown writer exercised by the oracle only.",
+            "DESIGN.md §5 C05"),
+    "C09": ("proof",
+            "Coq proof, unbounded in rows and columns, that the vMerge sweep reproduces the document grid under HTML table layout + exhaustive tilings correspondence",
+            "Theorem for every well-formed tiling encoding of any size: html_layout (row_spans rows) = Some (doc_grid rows): no overlap, no gap, every position owned by the right cell; "
+            "plus the tr/th/td/thead/tbody/colspan/rowspan structure equations of the converter. The sweep model is compared in Coq with body_xml's calculate_row_spans on all tilings up to 3x3 (4x4 thorough) and random ones up to 6x6.",
+            BASE_NOTE + "Domain: merges do not cross the header boundary; rows and cells are direct children.",
+            "DESIGN.md §5 C09"),
+    "C10": ("proof",
+            "Coq proofs of link-target rules, the HYPERLINK regex capture (over the regex regenerated from source), note numbering and notes-list shape + end-to-end correspondence + href oracle",
+            "Theorems: replace_fragment; for the instruction regex read from the source (shape checked by computation) the captured href is exactly the quoted target whatever switches follow; "
+            "the k-th note reference is labelled [k] with ids derived from (type,id); the notes list has one li per reference in order with matching id and back-link; ids are prefixed. "
+            "Oracle: every href in the output is a link target of the document or resolves to an id.",
+            BASE_NOTE, "DESIGN.md §5 C10"),
+    "C11": ("proof",
+            "Coq proofs of toggle reading and of the run-wrapper equation + end-to-end correspondence + per-run wrapper oracle over all spellings",
+            "Theorems: a toggle is on iff present with w:val not false/0; underline/highlight rules; a run is its children wrapped in exactly the paths of the properties that are on "
+            "(run style outermost ... highlight innermost), defaults strong/em/s, nothing for unmapped underline/caps/small caps/highlight. Oracle: inline ancestors of each run's text.",
+            BASE_NOTE + "'Formatting never extends over another run' rests on C04's leaf-chain theorem plus this equation; not restated as one theorem.",
+            "DESIGN.md §5 C11"),
+    "C13": ("proof",
+            "Coq proofs of name/DOM/reader invariances over tables regenerated from source + metamorphic end-to-end suite over all listed rewrites",
+            "Theorems: names are (URI, local) so prefixes cannot matter; Strict and Transitional URIs map to the same names; comments, PIs, xmlns attributes are dropped, CDATA is text, split text concatenates; "
+            "ignored elements and text nodes among siblings do not change what the reader returns. The expat/zipfile layer (declaration, encoding, BOM, char refs, zip order/compression, part names) is exercised "
+            "by building each package under random compositions of the rewrites and requiring identical value and messages.",
+            BASE_NOTE + "expat's lexical layer and zipfile are runtime: metamorphic testing only.",
+            "DESIGN.md §5 C13"),
+    "C16": ("proof",
+            "Coq proofs that emitted warnings equal the reading-order anomaly trace and are deduplicated + end-to-end correspondence of messages + independent anomaly walk",
+            "Theorems: unknown element => exactly one warning naming it, ignored element => none; converter warnings = warnings of the traversal in order; clean subtree => none; messages are NoDup and lose nothing; "
+            "style-map warnings one per distinct unreadable line. Oracle: the message set equals the anomalies an independent walk of the package lists; clean packages yield [].",
+            BASE_NOTE, "DESIGN.md §5 C16"),
 }
 
 PENDING = {}
@@ -94,7 +146,7 @@ def main():
     print("MANIFEST.json: %d checks, %d not_applicable" % (len(checks), len(na)))
 
 
-SOURCE_COMMITS = ["885c918 fix: string token regex backtracked exponentially", "7af9c40 fix: list level with more digits than int() accepts"]
+SOURCE_COMMITS = ["885c918 fix: string token regex backtracked exponentially", "7af9c40 fix: list level with more digits than int() accepts", "9fb343f fix: mc:AlternateContent without mc:Fallback", "7eb27cb fix: dangling w:numStyleLink", "0690070 fix: CDATA text dropped", "be64d21 fix: HYPERLINK field switches swallowed"]
 
 if __name__ == "__main__":
     main()
